@@ -18,6 +18,7 @@ type SchedResult struct {
 	Results   []string // per client: its rendered result, "crashed" or "hung"
 	Dump      []string // canonical keyspace after every live client finished
 	Effective []string // call-granularity events as they actually happened (wrapped runs only), see below
+	Timeline  []string // the trace with clock ticks ("t:<ns>") and lease expiries ("e") interleaved where they happened
 	Hung      bool
 }
 
@@ -87,6 +88,13 @@ func RunScheduledLazy(w *world.World, clients []func(p *world.Proc) string, lazy
 	}
 	sc.Settle()
 	var eff []string
+	var timeline []string
+	seen := 0
+	flushTrace := func() { // copy trace entries produced since the last call into the timeline
+		for ; seen < len(sc.Trace); seen++ {
+			timeline = append(timeline, sc.Trace[seen])
+		}
+	}
 
 	// callStep runs client i to the end of its current/next repository call; returns false if not live.
 	callStep := func(i int) bool {
@@ -160,10 +168,14 @@ func RunScheduledLazy(w *world.World, clients []func(p *world.Proc) string, lazy
 		}
 		switch {
 		case ev == "e":
+			flushTrace()
+			timeline = append(timeline, "e")
 			w.ExpireLeases(time.Second)
 			eff = append(eff, "e")
 		case ev[0] == 't':
+			flushTrace()
 			ns, _ := strconv.ParseInt(ev[1:], 10, 64)
+			timeline = append(timeline, fmt.Sprintf("t:%d", ns))
 			w.Advance(time.Duration(ns))
 			eff = append(eff, ev)
 		case ev[0] == 'c' && len(ev) > 1 && ev[1] >= '0' && ev[1] <= '9':
@@ -224,6 +236,7 @@ func RunScheduledLazy(w *world.World, clients []func(p *world.Proc) string, lazy
 			if err != nil {
 				continue
 			}
+			start(i)
 			sc.Step(i, act)
 		}
 		if sc.Hung {
@@ -259,7 +272,8 @@ func RunScheduledLazy(w *world.World, clients []func(p *world.Proc) string, lazy
 			results[i] = "hung"
 		}
 	}
-	res := SchedResult{Trace: append([]string{}, sc.Trace...), Results: results, Dump: w.Dump(), Effective: eff, Hung: sc.Hung}
+	flushTrace()
+	res := SchedResult{Trace: append([]string{}, sc.Trace...), Results: results, Dump: w.Dump(), Effective: eff, Timeline: timeline, Hung: sc.Hung}
 	sc.Finish()
 	return res
 }
